@@ -1292,12 +1292,18 @@ fn run_roa(c: &RoaCase, obs: &mut Obs) -> CheckResult {
         .chain(decoded.content().v6_addrs().iter())
         .map(|a| (a.prefix().addr().to_bits(), a.prefix().addr_len(), a.max_length()))
         .collect();
-    // as multisets (the two families cannot be confused: IPv4 addresses live
-    // in the top 32 bits with lengths <= 32, and the lists are compared per
-    // case where the generator keeps v4 and v6 entries apart)
-    let (mut got, mut want) = (got, want);
-    got.sort();
-    want.sort();
+    // as sets of (address, length, *effective* max length): the order of the
+    // entries, repeated entries and whether a max length equal to the prefix
+    // length is written out or left implicit are the builder's choice (the
+    // statement asks the twins to agree, checked above, and RFC 9582 even
+    // recommends the canonical choices)
+    let canon = |v: Vec<(u128, u8, Option<u8>)>| {
+        let mut v: Vec<(u128, u8, u8)> = v.into_iter().map(|(a, l, m)| (a, l, m.unwrap_or(l))).collect();
+        v.sort();
+        v.dedup();
+        v
+    };
+    let (got, want) = (canon(got), canon(want));
     ensure_sig!(got == want, "c05:roa:entries", "decoded ROA lists {:x?}, the builder was given {:x?}", got, want);
     Ok(())
 }
